@@ -75,12 +75,27 @@ impl CustomDs {
 /// A data source whose methods themselves use the crate (a pure, total function all the same): an analysis in progress
 /// must not share hidden state (a per-thread scratch buffer, a cache) with analyses started from inside the callback.
 pub struct ReentrantDs<'a>(pub &'a CustomDs);
+/// set when an analysis started from INSIDE a data-source callback gave another answer than the same analysis outside
+pub static NESTED_BAD: std::sync::atomic::AtomicUsize = std::sync::atomic::AtomicUsize::new(0);
+static NESTED_REF: std::sync::OnceLock<String> = std::sync::OnceLock::new();
+pub fn nested_probe() -> String {
+    let ii = InitialInfo::new("\u{2067}a\u{2068}\u{5D0}(\u{2066}", None);
+    // `ב [ א ] a` in an LTR paragraph: N0 gives the closing bracket level 1, N1/N2 alone would give it 0
+    let b = BidiInfo::new("\u{5D1}[\u{5D0}]a (b\u{2067}c)\u{2069}1", Some(Level::ltr()));
+    let ro = b.reorder_line(&b.paragraphs[0], b.paragraphs[0].range.clone());
+    let d = unicode_bidi::get_base_direction("\u{2067}x\u{2069}\u{5D0}");
+    format!("{:?}|{}|{:?}|{}|{}", ii.original_classes, ii.paragraphs.len(), b.levels.iter().map(|l| l.number()).collect::<Vec<u8>>(), ro, dir_str(&d))
+}
+/// to be called once, outside any callback, before the first case
+pub fn init_nested_reference() {
+    let _ = NESTED_REF.set(nested_probe());
+}
 impl<'a> ReentrantDs<'a> {
     fn poke() {
-        let _ = InitialInfo::new("\u{2067}a\u{2068}\u{5D0}(\u{2066}", None);
-        let b = BidiInfo::new("\u{5D0}(a\u{2067}b)\u{2069}1", None);
-        let _ = b.reorder_line(&b.paragraphs[0], b.paragraphs[0].range.clone());
-        let _ = unicode_bidi::get_base_direction("\u{2067}x\u{2069}\u{5D0}");
+        let got = nested_probe();
+        if NESTED_REF.get().map_or(false, |r| *r != got) {
+            NESTED_BAD.fetch_add(1, std::sync::atomic::Ordering::SeqCst);
+        }
     }
 }
 impl<'a> BidiDataSource for ReentrantDs<'a> {
@@ -336,7 +351,8 @@ pub fn run_counted(id: &str, mode: &str, input: &Input) -> String {
     let (r0, s0) = (PANICS_RAISED.load(SeqCst), PANICS_SEEN.load(SeqCst));
     let line = run(id, mode, input);
     let hidden = (PANICS_RAISED.load(SeqCst) - r0).saturating_sub(PANICS_SEEN.load(SeqCst) - s0);
-    if hidden > 0 { format!("{} HIDDENPANIC={}", line, hidden) } else { line }
+    let line = if hidden > 0 { format!("{} HIDDENPANIC={}", line, hidden) } else { line };
+    if NESTED_BAD.swap(0, SeqCst) > 0 { format!("{} NESTEDBAD=1", line) } else { line }
 }
 fn or_panic(o: Option<String>) -> String {
     o.unwrap_or_else(|| "PANIC".to_string())
@@ -490,12 +506,14 @@ fn analyse8<D: BidiDataSource>(ds: &D, s: &str, api: Api, dir: Dir) -> Analysis 
         Api::B => {
             let info = BidiInfo::new_with_data_source(ds, s, dir.level());
             let ii = InitialInfo::new_with_data_source(ds, s, dir.level());
-            let dirs = info.paragraphs.iter().map(|p| Paragraph::new(&info, p).direction()).collect();
+            // `Paragraph` built on the analysis' own element for even paragraphs, on a detached clone for odd ones
+            let dirs = info.paragraphs.iter().enumerate().map(|(k, p)| { let c = p.clone(); Paragraph::new(&info, if k % 2 == 0 { p } else { &c }).direction() }).collect();
             let level_at = info
                 .paragraphs
                 .iter()
                 .map(|p| {
-                    let pa = Paragraph::new(&info, p);
+                    let pc = p.clone();
+                    let pa = Paragraph::new(&info, if p.range.start % 2 == 1 { p } else { &pc });
                     ((0..p.range.end - p.range.start).map(|k| pa.level_at(k)).collect::<Vec<Level>>(), p.len())
                 })
                 .collect();
@@ -532,12 +550,13 @@ fn analyse16<D: BidiDataSource>(ds: &D, s: &[u16], api: Api, dir: Dir) -> Analys
         Api::B => {
             let info = utf16::BidiInfo::new_with_data_source(ds, s, dir.level());
             let ii = utf16::InitialInfo::new_with_data_source(ds, s, dir.level());
-            let dirs = info.paragraphs.iter().map(|p| utf16::Paragraph::new(&info, p).direction()).collect();
+            let dirs = info.paragraphs.iter().enumerate().map(|(k, p)| { let c = p.clone(); utf16::Paragraph::new(&info, if k % 2 == 0 { p } else { &c }).direction() }).collect();
             let level_at = info
                 .paragraphs
                 .iter()
                 .map(|p| {
-                    let pa = utf16::Paragraph::new(&info, p);
+                    let pc = p.clone();
+                    let pa = utf16::Paragraph::new(&info, if p.range.start % 2 == 1 { p } else { &pc });
                     ((0..p.range.end - p.range.start).map(|k| pa.level_at(k)).collect::<Vec<Level>>(), p.len())
                 })
                 .collect();
@@ -692,17 +711,35 @@ pub struct LineOut {
 }
 
 macro_rules! line_calls {
-    ($info:expr, $para:expr, $a:expr, $b:expr, $is_b:expr, $conv:expr) => {{
+    ($info:expr, $mk:expr, $pidx:expr, $para_clone:expr, $a:expr, $b:expr, $is_b:expr, $conv:expr) => {{
+        // the paragraph argument: the analysis' OWN element (`&info.paragraphs[i]`, what callers normally pass) in
+        // half of the cases, a clone taken from another analysis object in the other half
+        let own = $is_b && ($a + $b + $pidx) % 2 == 0 && $pidx < $info.0.as_ref().map_or(0, |i| i.paragraphs.len());
+        let own_ref;
+        let pref: &ParagraphInfo = if own { own_ref = &$info.0.as_ref().unwrap().paragraphs[$pidx]; own_ref } else { $para_clone };
+        // three FRESH analysis objects, each asked one of the line queries as its very FIRST query
+        let fresh_ro = $mk().and_then(|i2| guard(|| {
+            let c = if $is_b { let i = i2.0.as_ref().unwrap(); let p = if own { i.paragraphs[$pidx].clone() } else { pref.clone() }; i.reorder_line(&p, $a..$b) } else { i2.1.as_ref().unwrap().reorder_line($a..$b) };
+            $conv(&c)
+        }));
+        let fresh_vr = $mk().and_then(|i2| guard(|| {
+            let (l, r) = if $is_b { let i = i2.0.as_ref().unwrap(); i.visual_runs(&i.paragraphs.get($pidx).cloned().unwrap_or_else(|| pref.clone()), $a..$b) } else { i2.1.as_ref().unwrap().visual_runs($a..$b) };
+            (l.iter().map(|x| x.number()).collect::<Vec<u8>>(), r)
+        }));
+        let fresh_rl = $mk().and_then(|i2| guard(|| {
+            let l = if $is_b { let i = i2.0.as_ref().unwrap(); i.reordered_levels(&i.paragraphs.get($pidx).cloned().unwrap_or_else(|| pref.clone()), $a..$b) } else { i2.1.as_ref().unwrap().reordered_levels($a..$b) };
+            l.iter().map(|x| x.number()).collect::<Vec<u8>>()
+        }));
         // warm-up: other lines are asked of the SAME analysis object first (the whole paragraph, its first unit range
         // up to the line start, the line end up to the paragraph end) so that a result remembered from a previous
         // call cannot pass for the answer to this one
-        let (wa, wb) = ($para.range.start, $para.range.end);
+        let (wa, wb) = (pref.range.start, pref.range.end);
         for (x, y) in [(wa, wb), (wa, $a), ($b, wb)] {
             if x < y && (x, y) != ($a, $b) {
                 let _ = guard(|| {
                     if $is_b {
                         let i = $info.0.as_ref().unwrap();
-                        (i.reordered_levels($para, x..y).len(), i.visual_runs($para, x..y).1.len(), i.reorder_line($para, x..y).len())
+                        (i.reordered_levels(pref, x..y).len(), i.visual_runs(pref, x..y).1.len(), i.reorder_line(pref, x..y).len())
                     } else {
                         let i = $info.1.as_ref().unwrap();
                         (i.reordered_levels(x..y).len(), i.visual_runs(x..y).1.len(), i.reorder_line(x..y).len())
@@ -710,27 +747,30 @@ macro_rules! line_calls {
                 });
             }
         }
-        let rl = guard(|| if $is_b { $info.0.as_ref().unwrap().reordered_levels($para, $a..$b) } else { $info.1.as_ref().unwrap().reordered_levels($a..$b) });
-        let rpc = guard(|| if $is_b { $info.0.as_ref().unwrap().reordered_levels_per_char($para, $a..$b) } else { $info.1.as_ref().unwrap().reordered_levels_per_char($a..$b) });
-        let vr = guard(|| if $is_b { $info.0.as_ref().unwrap().visual_runs($para, $a..$b) } else { $info.1.as_ref().unwrap().visual_runs($a..$b) });
+        let rl = guard(|| if $is_b { $info.0.as_ref().unwrap().reordered_levels(pref, $a..$b) } else { $info.1.as_ref().unwrap().reordered_levels($a..$b) });
+        let rpc = guard(|| if $is_b { $info.0.as_ref().unwrap().reordered_levels_per_char(pref, $a..$b) } else { $info.1.as_ref().unwrap().reordered_levels_per_char($a..$b) });
+        let vr = guard(|| if $is_b { $info.0.as_ref().unwrap().visual_runs(pref, $a..$b) } else { $info.1.as_ref().unwrap().visual_runs($a..$b) });
         let druns = match &rl {
             Some(l) => guard(|| unicode_bidi::deprecated::visual_runs($a..$b, l)),
             None => None,
         };
         let ro = guard(|| {
-            let c = if $is_b { $info.0.as_ref().unwrap().reorder_line($para, $a..$b) } else { $info.1.as_ref().unwrap().reorder_line($a..$b) };
+            let c = if $is_b { $info.0.as_ref().unwrap().reorder_line(pref, $a..$b) } else { $info.1.as_ref().unwrap().reorder_line($a..$b) };
             let borrowed = matches!(c, Cow::Borrowed(_));
             ($conv(&c), borrowed)
         });
         // ... and the measured line once more
-        let rl2 = guard(|| if $is_b { $info.0.as_ref().unwrap().reordered_levels($para, $a..$b) } else { $info.1.as_ref().unwrap().reordered_levels($a..$b) });
-        let vr2 = guard(|| if $is_b { $info.0.as_ref().unwrap().visual_runs($para, $a..$b) } else { $info.1.as_ref().unwrap().visual_runs($a..$b) });
+        let rl2 = guard(|| if $is_b { $info.0.as_ref().unwrap().reordered_levels(pref, $a..$b) } else { $info.1.as_ref().unwrap().reordered_levels($a..$b) });
+        let vr2 = guard(|| if $is_b { $info.0.as_ref().unwrap().visual_runs(pref, $a..$b) } else { $info.1.as_ref().unwrap().visual_runs($a..$b) });
         let ro2 = guard(|| {
-            let c = if $is_b { $info.0.as_ref().unwrap().reorder_line($para, $a..$b) } else { $info.1.as_ref().unwrap().reorder_line($a..$b) };
+            let c = if $is_b { $info.0.as_ref().unwrap().reorder_line(pref, $a..$b) } else { $info.1.as_ref().unwrap().reorder_line($a..$b) };
             $conv(&c)
         });
         let lv = |v: &Option<Vec<Level>>| v.as_ref().map(|x| x.iter().map(|l| l.number()).collect::<Vec<u8>>());
-        let rep = lv(&rl) == lv(&rl2)
+        let fresh_ok = fresh_ro == ro.as_ref().map(|v| v.0.clone())
+            && fresh_vr == vr.as_ref().map(|v| (v.0.iter().map(|x| x.number()).collect::<Vec<u8>>(), v.1.clone()))
+            && fresh_rl == lv(&rl);
+        let rep = fresh_ok && lv(&rl) == lv(&rl2)
             && vr.as_ref().map(|v| (lv(&Some(v.0.clone())), v.1.clone())) == vr2.as_ref().map(|v| (lv(&Some(v.0.clone())), v.1.clone()))
             && ro.as_ref().map(|v| v.0.clone()) == ro2;
         LineOut { rep, rl, rpc, vr, druns, ro }
@@ -751,26 +791,28 @@ pub fn run_line(enc: Enc, api: Api, dir: Dir, text: &[u32], ds: &Option<DsSpec>,
         Enc::U8 => {
             let sh = shifted8(text);
             let s: &str = sh.as_str();
-            let infos: (Option<BidiInfo>, Option<ParagraphBidiInfo>) = guard(|| match (api, ds) {
+            let mk = || -> Option<(Option<BidiInfo>, Option<ParagraphBidiInfo>)> { guard(|| match (api, ds) {
                 (Api::B, None) => (Some(BidiInfo::new_with_data_source(&hd, &s, dir.level())), None),
                 (Api::B, Some(spec)) => (Some(BidiInfo::new_with_data_source(&CustomDs::new(spec), &s, dir.level())), None),
                 (Api::P, None) => (None, Some(ParagraphBidiInfo::new_with_data_source(&hd, &s, dir.level()))),
                 (Api::P, Some(spec)) => (None, Some(ParagraphBidiInfo::new_with_data_source(&CustomDs::new(spec), &s, dir.level()))),
-            })?;
+            }) };
+            let infos = mk()?;
             let conv = |c: &Cow<str>| c.chars().map(|ch| ch as u32).collect::<Vec<u32>>();
-            line_calls!(infos, &pinfo, a, b, is_b, conv)
+            line_calls!(infos, mk, para, &pinfo, a, b, is_b, conv)
         }
         Enc::U16 => {
             let sh = shifted16(text);
             let s: &[u16] = sh.as_slice();
-            let infos: (Option<utf16::BidiInfo>, Option<utf16::ParagraphBidiInfo>) = guard(|| match (api, ds) {
+            let mk = || -> Option<(Option<utf16::BidiInfo>, Option<utf16::ParagraphBidiInfo>)> { guard(|| match (api, ds) {
                 (Api::B, None) => (Some(utf16::BidiInfo::new_with_data_source(&hd, &s, dir.level())), None),
                 (Api::B, Some(spec)) => (Some(utf16::BidiInfo::new_with_data_source(&CustomDs::new(spec), &s, dir.level())), None),
                 (Api::P, None) => (None, Some(utf16::ParagraphBidiInfo::new_with_data_source(&hd, &s, dir.level()))),
                 (Api::P, Some(spec)) => (None, Some(utf16::ParagraphBidiInfo::new_with_data_source(&CustomDs::new(spec), &s, dir.level()))),
-            })?;
+            }) };
+            let infos = mk()?;
             let conv = |c: &Cow<[u16]>| c.iter().map(|u| *u as u32).collect::<Vec<u32>>();
-            line_calls!(infos, &pinfo, a, b, is_b, conv)
+            line_calls!(infos, mk, para, &pinfo, a, b, is_b, conv)
         }
     };
     Some(LineCtx { analysis, out })
@@ -1088,7 +1130,16 @@ pub fn run(id: &str, mode: &str, input: &Input) -> String {
                 let nchars = t.chars().count();
                 let (lo, hi) = t.chars().size_hint();
                 let hint_ok = lo <= nchars && hi.map_or(true, |x| x >= nchars);
-                let meth = format!("{}|{}|{}|{}|{}|{}|{}", nth.join(","), nthb.join(","), step.join(","), rev.join(","), nchars, h(t.chars().last()), hint_ok as u8);
+                let ci_ok = {
+                    let all: Vec<(usize, char)> = t.char_indices().collect();
+                    let il_all: Vec<(usize, usize)> = t.indices_lengths().collect();
+                    t.char_indices().count() == all.len() && t.char_indices().last() == all.last().copied()
+                        && (0..=all.len() + 1).all(|k| t.char_indices().nth(k) == all.get(k).copied())
+                        && t.indices_lengths().count() == il_all.len() && t.indices_lengths().last() == il_all.last().copied()
+                        && (0..=il_all.len() + 1).all(|k| t.indices_lengths().nth(k) == il_all.get(k).copied())
+                        && all.len() == nchars && il_all.len() == nchars
+                };
+                let meth = format!("{}|{}|{}|{}|{}|{}|{}", nth.join(","), nthb.join(","), step.join(","), rev.join(","), nchars, h(t.chars().last()), (hint_ok && ci_ok) as u8);
                 let mut it = t.chars();
                 let mut outs = vec![];
                 for o in ops.chars() {
@@ -1216,7 +1267,17 @@ pub fn run(id: &str, mode: &str, input: &Input) -> String {
             let from = guard(|| Level::from(*n).number().to_string());
             // Level::vec is the checked bulk conversion: it must reject what Level::from rejects
             let vec1 = guard(|| Level::vec(&[0, *n, 1]).iter().map(|l| l.number().to_string()).collect::<Vec<_>>().join(","));
-            format!("{} => NEW={} NEWX={} FROM={} VEC={}", q, new, newx, or_panic(from), or_panic(vec1))
+            // ... also inside longer slices (block-wise validation): n at every position of a slice of 19 valid numbers
+            let mut vec_long_ok = true;
+            for pos in 0..19usize {
+                let mut v: Vec<u8> = (0..19u8).map(|k| k * 6).collect();
+                v[pos] = *n;
+                let r = guard(|| Level::vec(&v).iter().map(|l| l.number()).collect::<Vec<u8>>());
+                vec_long_ok &= if *n <= 126 { r == Some(v.clone()) } else { r.is_none() };
+            }
+            let r8 = guard(|| Level::vec(&[*n; 8]).iter().map(|l| l.number()).collect::<Vec<u8>>());
+            vec_long_ok &= if *n <= 126 { r8 == Some(vec![*n; 8]) } else { r8.is_none() };
+            format!("{} => NEW={} NEWX={} FROM={} VEC={} VECL={}", q, new, newx, or_panic(from), or_panic(vec1), vec_long_ok as u8)
         }
         Input::HasRtl { levels } => {
             let q = format!("{} hasrtl LV={}", head, numlist(levels));
@@ -1460,11 +1521,21 @@ pub fn run(id: &str, mode: &str, input: &Input) -> String {
                 let p8 = b8.paragraphs[0].clone();
                 let runs8 = b8.visual_runs(&p8, p8.range.clone()).1.len();
                 let ro8 = b8.reorder_line(&p8, p8.range.clone());
+                // the same text with the paragraph level forced to 1: `a` at level 2, `א` at level 1, and rule L2 must
+                // reverse the order of the 2n one-character runs (the reordered line is the text backwards)
+                let br = utf16::BidiInfo::new(&u, Some(Level::rtl()));
+                let pr = br.paragraphs[0].clone();
+                let (lvr, runs_r) = br.visual_runs(&pr, pr.range.clone());
+                let ror = br.reorder_line(&pr, pr.range.clone());
+                let rev: Vec<u16> = u.iter().rev().copied().collect();
+                let rtl_ok = runs_r.len() == 2 * *n && runs_r[0].start == 2 * *n - 1 && runs_r[2 * *n - 1].start == 0
+                    && lvr.iter().map(|l| l.number() as usize).sum::<usize>() == 3 * *n && ror.as_ref() == rev.as_slice();
                 format!(
-                    "PARAS={} RUNS={} RUNSP={} RUNS8={} LSUM={} SAME={}",
+                    "PARAS={} RUNS={} RUNSP={} RUNS8={} LSUM={} SAME={} RTL={}",
                     b.paragraphs.len(), runs.len(), runs_p, runs8,
                     lv.iter().map(|l| l.number() as usize).sum::<usize>(),
-                    (ro.as_ref() == u.as_slice() && ro8.as_ref() == s8.as_str()) as u8
+                    (ro.as_ref() == u.as_slice() && ro8.as_ref() == s8.as_str()) as u8,
+                    rtl_ok as u8
                 )
             });
             format!("{} => {}", q, or_panic(r))
